@@ -117,6 +117,17 @@ def g_call(fn, *args, **kwargs):
 	return _chk(fn(*args, **kwargs)) if not isinstance(fn, type) or fn in (int, float) else fn(*args, **kwargs)
 
 
+BY_VALUE_ASSIGN = [False]
+
+
+def g_assign(v):
+	"""The value an assignment binds. In the by-value pass containers and objects are copied, as the C++ declaration/assignment does:
+	a program whose result changes relies on two names sharing one object."""
+	if BY_VALUE_ASSIGN[0] and (isinstance(v, (list, dict)) or (getattr(type(v), '__module__', '') == '__vf_main__' and not isinstance(v, (enum.Enum, BaseException)))):
+		return copy.deepcopy(v)
+	return v
+
+
 SORTED_DICTS = [False]
 _VIEWS = (type({}.keys()), type({}.values()), type({}.items()))
 
@@ -192,7 +203,14 @@ class Instrument(ast.NodeTransformer):
 		# annotations stay untouched
 		if node.value is not None:
 			node.value = self.visit(node.value)
+			node.value = ast.copy_location(ast.Call(ast.Name('vfg_assign', ast.Load()), [node.value], []), node.value)
 		node.target = self.visit(node.target)
+		return node
+
+	def visit_Assign(self, node):
+		self.generic_visit(node)
+		if not isinstance(node.value, (ast.Tuple, ast.Starred)):
+			node.value = ast.copy_location(ast.Call(ast.Name('vfg_assign', ast.Load()), [node.value], []), node.value)
 		return node
 
 	def visit_FunctionDef(self, node):
@@ -248,6 +266,13 @@ def run(source: str, calls: list[tuple[str, str]], fields: dict[str, list[str]],
 			BY_VALUE_ARGS[0] = False
 		if again != out:
 			return {'lines': out['lines'], 'out_of_domain': 'relies-on-aliasing-of-arguments'}
+		BY_VALUE_ASSIGN[0] = True
+		try:
+			again = run_once(source, calls, fields, guarded, step_limit)
+		finally:
+			BY_VALUE_ASSIGN[0] = False
+		if again != out:
+			return {'lines': out['lines'], 'out_of_domain': 'relies-on-aliasing-of-variables'}
 	return out
 
 
@@ -262,7 +287,7 @@ def run_once(source: str, calls: list[tuple[str, str]], fields: dict[str, list[s
 	if guarded:
 		tree = Instrument().visit(tree)
 		ast.fix_missing_locations(tree)
-	ns: dict = {'__name__': '__vf_main__', 'vfg_bin': g_bin, 'vfg_un': g_un, 'vfg_index': g_index, 'vfg_call': g_call, 'vfg_iter': g_iter}
+	ns: dict = {'__name__': '__vf_main__', 'vfg_bin': g_bin, 'vfg_un': g_un, 'vfg_index': g_index, 'vfg_call': g_call, 'vfg_iter': g_iter, 'vfg_assign': g_assign}
 	steps = [0]
 
 	def tracer(frame, event, arg):
